@@ -79,7 +79,8 @@ class SolverIR:
             # opaque helper of the solver: forget what it may write
             s2 = st.copy()
             writes = self_field_writes(self.model, recv.cls, f.attr)
-            s2.heap = {k: v for k, v in s2.heap.items() if not (k[0] == 'self' and k[1] in writes)}
+            for w in writes:
+                s2.bump('self', w)
             s2.effects = s2.effects + (('call', 'self', f.attr, args, kwargs, n.lineno, ('@g', len(s2.guards))),)
             return [(s2, NoneV())]
         return None
@@ -234,7 +235,17 @@ class SolverIR:
                 elif isinstance(t, ast.Attribute) and isinstance(t.value, ast.Name) and t.value.id == 'self':
                     assigned_fields.add(self.model.mangle(frame['cls'], t.attr))
         body_state = st.copy()
-        body_state.guards = ()
+        base_guards = len(st.guards)      # outer guards stay in force inside the body (they prune infeasible forks)
+        # fields the body may write through helper methods: unknown at the head of an arbitrary iteration
+        maybe = set(assigned_fields)
+        if frame['cls']:
+            for s2 in ast.walk(ast.Module(body=node.body, type_ignores=[])):
+                if isinstance(s2, ast.Call) and isinstance(s2.func, ast.Attribute) and isinstance(s2.func.value, ast.Name) \
+                        and s2.func.value.id == 'self':
+                    maybe |= self_field_writes(self.model, frame['cls'], s2.func.attr)
+        for fld in maybe:
+            if fld not in assigned_fields or ('self', fld) not in st.heap:
+                body_state.bump('self', fld)
         body_state.effects = ()
         body_state.env.update(env_binds)
         # at the head of an arbitrary iteration nothing is known about indexed element attributes
@@ -261,7 +272,13 @@ class SolverIR:
                     carried[nme] = o.state.heap[('self', nme)]
                 elif nme in o.state.env:
                     carried[nme] = o.state.env[nme]
-            L.paths.append(LoopPath(tuple(o.state.guards), tuple(o.state.effects), ex, carried))
+            rel_effects = []
+            for e in o.state.effects:
+                last = e[-1]
+                if isinstance(last, tuple) and len(last) == 2 and last[0] == '@g':
+                    e = tuple(e[:-1]) + (('@g', max(0, last[1] - base_guards)),)
+                rel_effects.append(e)
+            L.paths.append(LoopPath(tuple(o.state.guards[base_guards:]), tuple(rel_effects), ex, carried))
         self.loops[lid] = L
         out = st.copy()
         out.effects = out.effects + (('loop', L, ('@g', len(out.guards))),)
@@ -272,9 +289,9 @@ class SolverIR:
                 out.heap[('self', nme)] = folded
             else:
                 out.env[nme] = folded
-        for fld in assigned_fields:
+        for fld in maybe:
             if fld not in L.carries:
-                out.heap.pop(('self', fld), None)
+                out.bump('self', fld)
         return [out]
 
     # ---- entry
